@@ -45,7 +45,8 @@ pub fn fill_report(rep: &mut Report, acc: Acc, space: &str) {
     for s in acc.samples {
         rep.add_sample(s);
     }
-    for v in acc.violations {
+    for (_, (n, v)) in acc.violations {
+        rep.n_violations += n - 1;
         rep.add_violation(v);
     }
     rep.machinery_errors.extend(acc.machinery);
@@ -139,5 +140,66 @@ pub fn run(prop: &str, tier: Tier) -> i32 {
         "ChoiceSat returns only total models of the clauses+assumptions it was given; its DPLL is self-checked against truth tables at start-up".into(),
         "Assignment values are fabricated through a throw-away CadicalSolver with unit clauses (value constructor only) and read back".into(),
     ];
+    rep.finish()
+}
+
+fn prop_c07(_q: &Query, a: Aspect) -> Option<&'static str> {
+    (a == Aspect::Status || a == Aspect::Certificate).then_some("C07")
+}
+
+/// C07: multi-argument queries are disjunctions; both variants give the same status.
+pub fn run_c07(tier: Tier) -> i32 {
+    let mut rep = Report::new("C07", tier);
+    let thorough = tier == Tier::Thorough;
+    let mut graphs = small_universe(3);
+    graphs.extend(named(crate::universe::two_component_unions(2, 2), "U2+U2"));
+    if !thorough {
+        // quick: lists of length 3 only on graphs with <= 2 arguments, length <= 2 everywhere
+        let plan = SweepPlan {
+            graphs: small_universe(2),
+            presentations: vec![Presentation::Compact, Presentation::Hole],
+            kinds: vec![QKind::DC, QKind::DS],
+            sems: all_sems(),
+            certs: vec![false, true],
+            lists: ArgLists::Lists(3),
+            with_lib_default: false,
+            cfgs: vec![full_tree(FvPolicy::False)],
+            with_cadical: true,
+            prop_of: prop_c07,
+        };
+        fill_report(&mut rep, plan.run(), "U(<=2), all argument lists of length 1..3, complete tree");
+    }
+    let plan = SweepPlan {
+        graphs,
+        presentations: if thorough { ALL_PRESENTATIONS.to_vec() } else { vec![Presentation::Compact, Presentation::Hole] },
+        kinds: vec![QKind::DC, QKind::DS],
+        sems: all_sems(),
+        certs: vec![false, true],
+        lists: if thorough { ArgLists::Lists(3) } else { ArgLists::Lists(2) },
+        with_lib_default: false,
+        cfgs: vec![if thorough { full_tree(FvPolicy::False) } else { bounded(1, FvPolicy::False) }],
+        with_cadical: true,
+        prop_of: prop_c07,
+    };
+    fill_report(&mut rep, plan.run(), "U(<=3) and U(<=2)+U(<=2), all argument lists (length 1..2 quick, 1..3 thorough)");
+    if thorough {
+        // lists of length <= 2 on members of S with several components
+        let plan = SweepPlan {
+            graphs: s_family().into_iter().filter(|(_, g)| g.n <= 8).collect(),
+            presentations: vec![Presentation::Compact],
+            kinds: vec![QKind::DC, QKind::DS],
+            sems: all_sems(),
+            certs: vec![false, true],
+            lists: ArgLists::Lists(2),
+            with_lib_default: false,
+            cfgs: vec![bounded(1, FvPolicy::False)],
+            with_cadical: true,
+            prop_of: prop_c07,
+        };
+        fill_report(&mut rep, plan.run(), "S (n<=8), lists of length 1..2");
+    }
+    rep.rule = "cases = (graph, presentation, DC/DS problem, encoder, argument list of length 1..3 with repetitions in every order, certificate flag) x oracle behaviours; status judged as disjunction over reference extensions, so the two variants are compared with the same expected value; distinct_nontrivial = distinct (graph, semantics) pairs with >= 2 extensions".into();
+    rep.bounds = json!({"lists": if thorough { "length 1..3" } else { "length 1..2 (1..3 on U(<=2))" }, "deviation_bound": if thorough { "complete tree" } else { "D<=1" }});
+    rep.assumptions = vec!["same trusted base as C01".into()];
     rep.finish()
 }
